@@ -289,6 +289,7 @@ const Prelude = `(set-option :produce-models true)
 (assert (= (str_len str_empty) 0))
 (declare-fun birth (Int) Int)
 (assert (= (birth 0) (- 1)))
+(assert (forall ((r Int)) (! (>= (birth r) (- 1)) :pattern ((birth r)))))
 (declare-fun perexec (Int) Bool)
 (assert (perexec 0))
 (declare-fun tyof (Int) Int)
